@@ -19,8 +19,6 @@
 mod util;
 #[path = "../vmcore.rs"]
 mod vmcore;
-#[path = "../vm/drivers.rs"]
-mod drivers;
 
 use fuel_asm::{op, GTFArgs, Instruction, RegId};
 use fuel_tx::{field::ScriptData as _, ConsensusParameters, GasCosts, Receipt, Script, ScriptParameters};
@@ -230,6 +228,17 @@ struct Sess<'a> {
 }
 
 fn slot_len(d: &Dump, cid: &ContractId, k: &[u8; 32]) -> Option<usize> { d.get(&(*cid, Bytes32::new(*k))).map(|v| v.len()) }
+/// key + i as a 256-bit big-endian number (None past 2^256 - 1) — used only to look at the neighbours of a key
+fn key_add(k: &[u8; 32], i: u64) -> Option<[u8; 32]> {
+    let mut out = *k;
+    let mut carry = i as u128;
+    for b in (0..4).rev() {
+        let limb = u64::from_be_bytes(out[8 * b..8 * b + 8].try_into().unwrap()) as u128 + carry;
+        out[8 * b..8 * b + 8].copy_from_slice(&(limb as u64).to_be_bytes());
+        carry = limb >> 64;
+    }
+    if carry != 0 { None } else { Some(out) }
+}
 
 /// choose the next storage instruction (boundary-biased; `risky` steps aim at the panic conditions)
 fn gen_step(rng: &mut StdRng, s: &Sess, cur: &Dump, cfg: &Cfg) -> PStep {
@@ -261,7 +270,10 @@ fn gen_step(rng: &mut StdRng, s: &Sess, cur: &Dump, cfg: &Cfg) -> PStep {
             else { enc_rrrr(0x38, dst, stat, KEY, imm as u8) }
         }
         4 | 5 => {                                                                                                           // SRWQ
-            let n = count(rng);
+            let mut n = count(rng);
+            if !risky {   // only ranges whose present slots are all 32 bytes long can be read this way
+                while n > 0 && (0..n).any(|i| key_add(&s.keys[ki], i).and_then(|q| slot_len(cur, &s.cid, &q)).map(|l| l != 32).unwrap_or(false)) { n -= 1; }
+            }
             sets.push((A2 as usize, if risky && rng.gen_range(0..5) == 0 { bad_ptr(rng) } else { dst_buf(rng) }));
             sets.push((A3 as usize, n));
             enc_rrrr(0x39, A2, stat, KEY, A3)
@@ -426,7 +438,7 @@ fn run_tx(out: &mut Out, run: u64, vm: &mut Vm<MemoryStorage>, ws: &WorldSt, tx:
             let mut st = match plan { Some(p) => p[sess_no][j].clone(), None => gen_step(rng, &sess, &rec.last, cfg) };
             if plan.is_none() {
                 st.sets.push((RPC, entry_pc));
-                if cfg.low_gas && rng.gen_range(0..12) == 0 { let g = vm.registers()[RCGAS]; st.sets.push((RCGAS, g.min(rng.gen_range(0..400)))); }
+                if cfg.low_gas && rng.gen_range(0..7) == 0 { let g = vm.registers()[RCGAS]; st.sets.push((RCGAS, g.min([0u64, 1, 2, 5, 12, 25, 60, 105, 120, 140, 260, 600][rng.gen_range(0..12)]))); }
             }
             this.push(st.clone());
             if !st_exec(&mut rec, vm, &st, variant == Variant::Flush, true) { died = true; break; }
@@ -452,6 +464,21 @@ fn run_tx(out: &mut Out, run: u64, vm: &mut Vm<MemoryStorage>, ws: &WorldSt, tx:
 
 thread_local! { static LAST_OUT: std::cell::RefCell<String> = std::cell::RefCell::new(String::new()); }
 
+/// a gas schedule whose every number is drawn from 1..=hi (same shape/version as the default one)
+fn random_gas(rng: &mut StdRng, hi: u64) -> GasCosts {
+    fn walk(v: &mut Value, rng: &mut StdRng, hi: u64) {
+        match v {
+            Value::Number(_) => { *v = json!(rng.gen_range(1..=hi)); }
+            Value::Array(a) => a.iter_mut().for_each(|x| walk(x, rng, hi)),
+            Value::Object(o) => o.values_mut().for_each(|x| walk(x, rng, hi)),
+            _ => {}
+        }
+    }
+    let mut v = serde_json::to_value(GasCosts::default()).expect("ser");
+    walk(&mut v, rng, hi);
+    serde_json::from_value(v).expect("de")
+}
+
 fn call_plans(rng: &mut StdRng, ws: &WorldSt, second: bool, low_gas: bool) -> Vec<CallPlan> {
     let (a, b, c) = (ws.a, ws.b, ws.c);
     let p = |outer, inner| CallPlan { outer, inner, fwd: None };
@@ -466,7 +493,7 @@ fn call_plans(rng: &mut StdRng, ws: &WorldSt, second: bool, low_gas: bool) -> Ve
     } else {
         match rng.gen_range(0..4) { 0 => vec![p(b, None), p(a, None)], 1 => vec![p(a, None)], 2 => vec![p(c, Some(a)), p(b, None)], _ => vec![p(a, None), p(a, None)] }
     };
-    if low_gas { for c in v.iter_mut() { if rng.gen_bool(0.6) { c.fwd = Some([150u32, 400, 900, 2500, 6000][rng.gen_range(0..5)]); } } }
+    if low_gas { for c in v.iter_mut() { if rng.gen_bool(0.5) { c.fwd = Some([700u32, 1500, 2500, 6000, 20000][rng.gen_range(0..5)]); } } }
     v
 }
 
@@ -494,7 +521,7 @@ fn run_world(out: &mut Out, run: &mut u64, seed: u64, cfg: &Cfg, variant: Varian
 fn twin(o: &Opts, out: &mut Out, run: &mut u64) {
     let n = if o.thorough() { 110 } else { 12 };
     for k in 0..n {
-        let cfg = Cfg { thorough: o.thorough(), steps_per_session: if o.thorough() { 14 } else { 10 }, risky: 0.07, low_gas: false, max_len: 1 << 20, gas: None };
+        let cfg = Cfg { thorough: o.thorough(), steps_per_session: if o.thorough() { 14 } else { 10 }, risky: 0.035, low_gas: false, max_len: 1 << 20, gas: None };
         let seed = o.seed.wrapping_mul(1000).wrapping_add(k);
         let mut plans = vec![];
         let cold = run_world(out, run, seed, &cfg, Variant::Cold, &mut plans, false);
@@ -510,7 +537,7 @@ fn gas(o: &Opts, out: &mut Out, run: &mut u64) {
     let n = if o.thorough() { 60 } else { 6 };
     let mut rng = o.rng(3326);
     for k in 0..n {
-        let costs = match k % 3 { 0 => GasCosts::unit(), 1 => drivers::random_gas(&mut rng, 9), _ => drivers::random_gas(&mut rng, 300) };
+        let costs = match k % 3 { 0 => GasCosts::unit(), 1 => random_gas(&mut rng, 9), _ => random_gas(&mut rng, 300) };
         let cfg = Cfg { thorough: o.thorough(), steps_per_session: 10, risky: 0.05, low_gas: true, max_len: 1 << 20, gas: Some(costs) };
         let seed = o.seed.wrapping_mul(1000).wrapping_add(500 + k);
         let mut plans = vec![];
